@@ -176,11 +176,11 @@ def theorem_spans(path):
     return spans
 
 
-def lean_errors_by_decl(path, output):
+def lean_errors_by_decl(path, output, base=None):
     """Maps `file:line:col: error` messages of `output` to declarations of `path`."""
     spans = theorem_spans(path)
     errs = {}
-    base = os.path.basename(path)
+    base = base or os.path.basename(path)
     for m in re.finditer(r"^(\S*?%s):(\d+):(\d+): error: (.*)$" % re.escape(base), output, re.M):
         ln = int(m.group(2))
         name = None
@@ -275,7 +275,7 @@ def check_lean_obligations(module, names, namespace="RlModel", extra_targets=())
                 f.write("#print axioms %s\n" % n)
         rc2, out2 = lean_run_file(tmp)
         os.unlink(tmp)
-        errs = lean_errors_by_decl(tmp, out2)
+        errs = lean_errors_by_decl(path, out2, os.path.basename(tmp))
         import_broken = bool(re.search(r"unknown module prefix|object file .* does not exist|unknown package", out2))
         found = _parse_axioms(out2)
         for n in names:
